@@ -16,7 +16,9 @@
 (* <= MaxWeight (plus all switches on).                                    *)
 (***************************************************************************)
 EXTENDS Aoef, TLC, Json
-CONSTANTS MaxWeight, Variant
+CONSTANTS MaxWeight, Variant,
+          StoreAt      \* "post": _aoef_store[id] is filled after assemble_aoef (the code); "pre": a placeholder is inserted
+                       \* before it (seeded variant C02-r2sb1: a dict keeps the position of the first insertion)
 VARIABLES ct, sw, opt, prog, ch, reach, mode, pc, todo, stack, store, doc, lk, li, loaded, missed
 
 vars == <<ct, sw, opt, prog, ch, reach, mode, pc, todo, stack, store, doc, lk, li, loaded, missed>>
@@ -43,6 +45,9 @@ Init == /\ ct \in Range(CTypes) /\ sw \in SwSets /\ opt \in DOMAIN Opts
         /\ store = EmptyStore /\ doc = EmptyStore
         /\ lk = 1 /\ li = 1 /\ loaded = {} /\ missed = {}
 
+\* position in the document list = position of the FIRST insertion into the adapter's dict
+Insert(st, o) == [st EXCEPT ![KindOf(o)] = IF \E i \in DOMAIN @ : @[i] = o THEN @ ELSE Append(@, o)]
+OnStack(o) == \E i \in DOMAIN stack : stack[i].o = o
 Step == Prog[pc]
 InConv == mode = "save" /\ pc <= Len(Prog) /\ Step[1] = "conv"
 \* entering a conv step: load its root list
@@ -53,7 +58,8 @@ Begin == /\ InConv /\ todo = <<"_fresh">> /\ stack = <<>>
 CallRoot == /\ InConv /\ todo # <<"_fresh">> /\ todo # <<>> /\ stack = <<>>
             /\ IF Stored(Head(todo)) THEN stack' = stack ELSE stack' = <<[o |-> Head(todo), i |-> 1]>>
             /\ todo' = Tail(todo)
-            /\ UNCHANGED <<ct, sw, opt, prog, ch, reach, mode, pc, store, doc, lk, li, loaded, missed>>
+            /\ store' = IF StoreAt = "pre" /\ ~Stored(Head(todo)) THEN Insert(store, Head(todo)) ELSE store
+            /\ UNCHANGED <<ct, sw, opt, prog, ch, reach, mode, pc, doc, lk, li, loaded, missed>>
 EndConv == /\ InConv /\ todo = <<>> /\ stack = <<>>
            /\ pc' = pc + 1 /\ todo' = <<"_fresh">>
            /\ UNCHANGED <<ct, sw, opt, prog, ch, reach, mode, stack, store, doc, lk, li, loaded, missed>>
@@ -65,9 +71,10 @@ Hit  == /\ mode = "save" /\ stack # <<>> /\ Top.i <= Len(Kids) /\ Stored(Kids[To
         /\ UNCHANGED <<ct, sw, opt, prog, ch, reach, mode, pc, todo, store, doc, lk, li, loaded, missed>>
 Call == /\ mode = "save" /\ stack # <<>> /\ Top.i <= Len(Kids) /\ ~Stored(Kids[Top.i])
         /\ stack' = Append([stack EXCEPT ![Len(stack)].i = @ + 1], [o |-> Kids[Top.i], i |-> 1])
-        /\ UNCHANGED <<ct, sw, opt, prog, ch, reach, mode, pc, todo, store, doc, lk, li, loaded, missed>>
+        /\ store' = IF StoreAt = "pre" THEN Insert(store, Kids[Top.i]) ELSE store
+        /\ UNCHANGED <<ct, sw, opt, prog, ch, reach, mode, pc, todo, doc, lk, li, loaded, missed>>
 Store == /\ mode = "save" /\ stack # <<>> /\ Top.i > Len(Kids)
-         /\ store' = [store EXCEPT ![KindOf(Top.o)] = IF Stored(Top.o) THEN @ ELSE Append(@, Top.o)]
+         /\ store' = Insert(store, Top.o)
          /\ stack' = SubSeq(stack, 1, Len(stack) - 1)
          /\ UNCHANGED <<ct, sw, opt, prog, ch, reach, mode, pc, todo, doc, lk, li, loaded, missed>>
 Read == /\ mode = "save" /\ pc <= Len(Prog) /\ Step[1] = "read"
@@ -105,7 +112,7 @@ Export == mode = "done" => PrintT(<<"CASE", ToJson(World(ct, sw) @@ [sw |-> sw] 
 (* ------------------------------ invariants ------------------------------ *)
 Pos(s, x) == CHOOSE i \in DOMAIN s : s[i] = x
 \* post-order: whatever is stored has all its references stored (every id is registered before it is used)
-RefClosed == \A o \in StoredSet : Range(ch[o]) \subseteq StoredSet
+RefClosed == \A o \in StoredSet : OnStack(o) \/ Range(ch[o]) \subseteq StoredSet
 NoDup == \A k \in KindSet : \A i, j \in DOMAIN store[k] : store[k][i] = store[k][j] => i = j
 \* a sequence's parent is stored (hence listed) before the sequence
 ParentFirst == \A i \in DOMAIN store["sequence"] :
